@@ -590,3 +590,65 @@ def xml_marker_scope(sx, p):
         if e.nsmap.get(pfx) != 'tns' or nm != cls.__name__:
             return False
     return True
+
+
+# ---------------------------------------------------------------- the class namespace is used by no element at all
+class MBase(ComplexModel):
+    __namespace__ = 'urn:models'
+    a = Integer
+
+
+class MSub(MBase):
+    __namespace__ = 'urn:models'
+    b = Integer
+
+
+class ModelsSvc(Service):
+    @rpc(_returns=MBase)
+    def get(ctx):
+        return RET['ret']
+
+    @rpc(_returns=Array(MBase))
+    def get_all(ctx):
+        return [RET['ret'], RET['ret']]
+
+
+MAPPS = {}
+
+
+@harness('C16', params=[(pn, m, fill) for pn in ('XmlDocument', 'Soap11', 'Soap12') for m in ('get', 'get_all') for fill in ('all fields', 'no fields')],
+         label=lambda p: '%s %s %s' % p,
+         functions=['spyne.protocol.xml.XmlDocument.serialize', 'spyne.protocol.soap.soap11.Soap11.serialize'],
+         bounds={'document': 'methods of a service in namespace tns declared with a class of namespace urn:models, returning an instance '
+                             'of its subclass with all fields set or none (then no element of the response lives in urn:models)'})
+def xml_marker_foreign_namespace(sx, p):
+    """the prefix of a type marker stays declared in the transmitted document even when the marker is its only use"""
+    from lxml import etree
+    pname, meth, fill = p
+    P = {'XmlDocument': XmlDocument, 'Soap11': Soap11, 'Soap12': Soap12}[pname]
+    if pname not in MAPPS:
+        MAPPS[pname] = Application([ModelsSvc], 'tns', in_protocol=P(), out_protocol=P(polymorphic=True))
+    app = MAPPS[pname]
+    server = ServerBase(app)
+    RET['ret'] = MSub(a=1, b=2) if fill == 'all fields' else MSub()
+    body = ('<%s xmlns="tns"/>' % meth).encode()
+    if pname != 'XmlDocument':
+        env = 'http://schemas.xmlsoap.org/soap/envelope/' if pname == 'Soap11' else 'http://www.w3.org/2003/05/soap-envelope'
+        body = ('<e:Envelope xmlns:e="%s"><e:Body>' % env).encode() + body + b'</e:Body></e:Envelope>'
+    ctx = MethodContext(server, MethodContext.SERVER)
+    ctx.in_string = [body]
+    ctx, = server.generate_contexts(ctx)
+    server.get_in_object(ctx)
+    server.get_out_object(ctx)
+    server.get_out_string(ctx)
+    if ctx.out_error is not None:
+        return False
+    root = etree.fromstring(b''.join(ctx.out_string))
+    marked = [e for e in root.iter() if isinstance(e.tag, str) and e.get('{%s}type' % XSI_NS)]
+    if len(marked) != (1 if meth == 'get' else 2):
+        return False
+    for e in marked:
+        pfx, _, nm = e.get('{%s}type' % XSI_NS).partition(':')
+        if e.nsmap.get(pfx) != 'urn:models' or nm != 'MSub':
+            return False
+    return True
